@@ -106,12 +106,17 @@ func (gs *GuardianSets) updateGuardianSets(guardianSets []*common.GuardianSet) e
 	if maxGuardianSetIndex <= uint32(gs.currentGuardianSetIndex) {
 		return nil
 	}
-	index := 0
+	index := -1
 	for i, guardianSet := range guardianSets {
 		if guardianSet.Index == uint32(gs.currentGuardianSetIndex)+1 {
 			index = i
 			break
 		}
+	}
+	if index == -1 {
+		// The batch does not continue where the stored list ends: appending it would file sets under
+		// the wrong indices.
+		return fmt.Errorf("invalid guardian sets, expected a set with index %v", gs.currentGuardianSetIndex+1)
 	}
 
 	gs.currentGuardianSetIndex = int(maxGuardianSetIndex)
